@@ -180,7 +180,7 @@ func (r *Run) blockCtx(fn *ssa.Function, b *ssa.BasicBlock) []Cond {
 		if c.Reject != "" || c.Block.Succs[0] == c.Block.Succs[1] {
 			continue
 		}
-		if cs := c.Cond.String(); strings.Contains(cs, "iter") || strings.Contains(cs, "next") {
+		if isLoopHeader(c.Block) {
 			continue
 		}
 		if edgeDominates(c.Block, c.Block.Succs[0], b) {
@@ -218,7 +218,11 @@ func (r *Run) Guard(fnName, cond, why string, opts ...GuardOpt) *Guard {
 	if opt.NoInline {
 		depth = 0
 	}
-	want := append([]string{cond}, opt.Alt...)
+	cond = normFull(cond)
+	want := []string{cond}
+	for _, a := range opt.Alt {
+		want = append(want, normFull(a))
+	}
 	igs := r.inlinedRejects(fn, depth, map[*ssa.Function]bool{})
 	for _, ig := range igs {
 		for _, w := range want {
@@ -873,4 +877,21 @@ func errToDealWithErr(ci ssa.CallInstruction) bool {
 		}
 	}
 	return false
+}
+
+// normFull sorts and de-duplicates the context conjuncts of a canonical guard text.
+func normFull(s string) string {
+	i := strings.Index(s, " @ ")
+	if i < 0 {
+		return s
+	}
+	parts := strings.Split(s[i+3:], " & ")
+	sort.Strings(parts)
+	var out []string
+	for j, p := range parts {
+		if j == 0 || p != parts[j-1] {
+			out = append(out, p)
+		}
+	}
+	return s[:i] + " @ " + strings.Join(out, " & ")
 }
